@@ -188,6 +188,11 @@ pub fn configs() -> Vec<(&'static str, WebAnnoConfig)> {
         ("namespaces-without-separator", base.clone().with_namespace("n".into(), "http://ex.org/ns".into()).with_namespace("e".into(), "http://ex.org/".into()).with_namespace("never".into(), "http://ex.org/ns/".into())),
         ("extra-context", WebAnnoConfig { extra_context: vec!["http://ex.org/ctx.jsonld".into()], ..base.clone() }),
         ("extra-context+namespaces", WebAnnoConfig { extra_context: vec!["http://ex.org/ctx.jsonld".into(), "http://ex.org/ctx2.jsonld".into()], ..base.clone() }.with_namespace("dc".into(), "http://purl.org/dc/terms/".into())),
+        // extra contexts that repeat the standard contexts, repeat each other, or are empty strings
+        ("extra-context=anno", WebAnnoConfig { extra_context: vec!["http://www.w3.org/ns/anno.jsonld".into()], ..base.clone() }),
+        ("extra-context=anno+namespaces", WebAnnoConfig { extra_context: vec!["http://www.w3.org/ns/anno.jsonld".into()], ..base.clone() }.with_namespace("ex".into(), "http://ex.org/".into())),
+        ("extra-context=anno,other,anno", WebAnnoConfig { extra_context: vec!["http://www.w3.org/ns/anno.jsonld".into(), "http://ex.org/ctx.jsonld".into(), "http://www.w3.org/ns/anno.jsonld".into(), "http://ex.org/ctx.jsonld".into(), "".into()], ..base.clone() }),
+        ("extra-context=ldp", WebAnnoConfig { extra_context: vec!["http://www.w3.org/ns/ldp.jsonld".into(), "https://www.w3.org/ns/anno.jsonld".into()], ..base.clone() }.with_namespace("anno".into(), "http://www.w3.org/ns/anno.jsonld".into())),
         ("extra-target", WebAnnoConfig { extra_target_template: Some("{resource}/{begin}/{end}".into()), ..base.clone() }),
         ("extra-target+prefixes", WebAnnoConfig { extra_target_template: Some("{resource}/{begin}/{end}".into()), default_annotation_iri: "http://ex.org/anno/".into(), default_set_iri: "http://ex.org/set/".into(), default_resource_iri: "http://ex.org/res/".into(), ..base.clone() }),
         ("generated+generator", WebAnnoConfig { auto_generated: true, auto_generator: true, ..Default::default() }),
